@@ -156,12 +156,12 @@ Definition check_case (c : case) : N :=
            end
     | SNil =>
       if (cls =? 2)%nat then 20 else
-      if negb (cls =? 1)%nat then 22 else
+      if negb (cls =? 1)%nat then 3 else
       if negb unmod then 16 else
       match sign_mode m t None chain with Err _ => 0 | _ => 3 end
     | SFails =>
       if (cls =? 2)%nat then 20 else
-      if negb (cls =? 1)%nat then 22 else
+      if negb (cls =? 1)%nat then 3 else
       if negb unmod then 16 else
       match sign_mode m t (Some (fun _ => Err 97%nat)) chain with Err _ => 0 | _ => 3 end
     | SCustom =>
